@@ -869,7 +869,8 @@ class Parser:
             end = end or tok.end
 
         if line_from_token:
-            line = tok.line
+            # synthetic end-of-input tokens (implicit NEWLINE, DEDENT, ENDMARKER) carry no line text
+            line = tok.line or self._tokenizer.get_lines([start[0]])[0]
         else:
             # End is used only to get the proper text
             line = "\\n".join(self._tokenizer.get_lines(list(range(start[0], end[0] + 1))))
